@@ -52,6 +52,19 @@ NEEDS_C = {
  "C20": ("C20", "ValidateSNI compares the whole authority (host:port) with the server name", "a Host header / :authority carrying an explicit port"),
 }
 
+NEEDS_D = {
+ "C01": ("C01", "PinnedDrop of Checkout cancels the in-flight marker even when the attempt is continued in the background", "HTTP/2, continue_after_preemption=true, >=2 concurrent requests to an origin without a connection, the attempt-owning request cancelled while dialling: its un-cancelled sibling fails with 'pool closed'"),
+ "C02": ("C02", "WhenReady::poll returns Ready as soon as is_open() is true, without poll_ready", "a connection type whose is_open stays true while busy, released while the previous response is still being read, another request checks out before it is ready"),
+ "C03": ("C03 (same change as c14d)", "Waiting::poll reads the waiter channel with try_recv instead of polling it: the request's waker is no longer registered", "a dialling request (polled at least once) to which push delivers a released connection while its own dial is pending: it is not woken"),
+ "C04": ("C04", "IdleConnections::pop gives up (and clears the list) when the newest idle entry is unusable", ">=2 idle HTTP/1.1 connections for an origin, the most recently released one closed by the peer: the healthy older one is dropped and the next request dials"),
+ "C05": ("C05", "PinnedDrop of an unpolled Checkout hands its popped connection back without the is_open check", "idle connection popped by a request that is never polled, closed by the peer, another request waiting, the first request dropped: the waiter receives the dead connection"),
+ "C07": ("C07", "GracefulConnectionDriver returns Pending right after graceful_shutdown() instead of polling the connection again", "a connection that is quiescent (idle keep-alive, idle h2, or silent before its first byte) when the signal fires"),
+ "C09": ("C09", "sniffer falls back to HTTP/1 only when the bytes read are not a prefix of the preface: on EOF with an empty or prefix buffer it reads again forever", "auto protocol, a client that closes before sending a non-preface byte: the connection task never finishes (fd leak; under a cooperative executor the poll never returns)"),
+ "C14": ("C14 (same change as c03d)", "Waiting::poll reads the waiter channel with try_recv instead of polling it", "request polled once, a connection for its origin released while its dial is pending, no other wake-up"),
+ "C15": ("C15", "push evicts the oldest idle entry when the list is full and then always stores the connection", "max_idle_per_host = 0: one idle connection per origin is kept and reused"),
+ "C18": ("C18 (same idea as c08c)", "Rewind::poll_read tops up from the inner stream after replaying the prefix and returns the inner result", "read buffer larger than the remaining prefix and no data ready on the inner stream: the prefix bytes already copied are lost with the Pending"),
+}
+
 import sys
 ROUND = sys.argv[1] if len(sys.argv) > 1 else ""
 if ROUND == "b":
@@ -60,14 +73,17 @@ SEEDROOT = '/tmp/seed'
 if ROUND == "c":
     NEEDS = NEEDS_C
     SEEDROOT = '/tmp/seed3'
+if ROUND == "d":
+    NEEDS = NEEDS_D
+    SEEDROOT = '/tmp/seed4'
 confirm = {}
-for f in ([SEEDROOT + '/confirm.log'] if ROUND == 'c' else glob.glob('/tmp/seed/r2_confirm*.log') if ROUND == 'b' else glob.glob('/tmp/seed/confirm_*.log') + glob.glob('/tmp/seed/confirm_single_*.log')):
+for f in ([SEEDROOT + '/confirm.log'] if ROUND in ('c','d') else glob.glob('/tmp/seed/r2_confirm*.log') if ROUND == 'b' else glob.glob('/tmp/seed/confirm_*.log') + glob.glob('/tmp/seed/confirm_single_*.log')):
     for l in open(f):
         m = re.match(r'CONFIRM (C\d+): suite (with|without) change \(incl\. demo\): (.*)', l)
         if m:
             confirm.setdefault(m.group(1), {})[m.group(2)] = m.group(3).strip()
 evals = {}
-for f in ([SEEDROOT + '/eval.log'] if ROUND == 'c' else sorted(glob.glob('/tmp/seed/r2_eval*.log')) if ROUND == 'b' else sorted(glob.glob('/tmp/seed/eval_*.log'))):
+for f in ([SEEDROOT + '/eval.log'] if ROUND in ('c','d') else sorted(glob.glob('/tmp/seed/r2_eval*.log')) if ROUND == 'b' else sorted(glob.glob('/tmp/seed/eval_*.log'))):
     for l in open(f):
         m = re.match(r'(C\d+)\.out/patch\.diff: caught by:(.*)\| machinery:(.*)\| silent:(.*)', l)
         if m:
@@ -109,7 +125,7 @@ for sid, (prop, change, needs) in sorted(NEEDS.items()):
 
 if ROUND:
     with open('/verif/seeded/README.md', 'a') as f:
-        f.write(("\nRound 3 (properties that had one seed so far; the known idea was named and had to be avoided):\n\n|" if ROUND == "c" else "\nRound 2 (sub-agents were told which kind of defect already existed for the property and asked for a different one):\n\n|") + " seed | aimed at | change | needs | caught by (quick tier) |\n|---|---|---|---|---|\n")
+        f.write(("\nRound 4 (pool, server and adapter properties again; both earlier ideas were named and had to be avoided):\n\n|" if ROUND == "d" else "\nRound 3 (properties that had one seed so far; the known idea was named and had to be avoided):\n\n|" if ROUND == "c" else "\nRound 2 (sub-agents were told which kind of defect already existed for the property and asked for a different one):\n\n|") + " seed | aimed at | change | needs | caught by (quick tier) |\n|---|---|---|---|---|\n")
         for sid, prop, change, needs, caught in rows:
             f.write(f"| {sid.lower()} | {prop} | {change} | {needs} | {' '.join(caught) if caught else '—'} |\n")
     print("kept", len(rows)); sys.exit(0)
